@@ -126,6 +126,16 @@ CHECKS = {
              "lie inside parents in source order; slicing the source by a model's region and re-reading gives an equal "
              "model (checked by TLC on the spec and by re-reading on the real reader, also for generated multi-line programs).",
         note="f-string components share their field's start position; only the embedded forms are position-checked."),
+    "C22": dict(
+        engine="literals", level="model_checking", design="5.4, 6/C22",
+        technique="TLC classifies every short text of the number alphabet with HyReaderIdent (three-valued) and checks "
+                  "separator/sign laws; each text is read by the real reader and compared by type and CPython value",
+        text="HyReaderIdent gives Python's numeric literal grammar plus the documented extensions as a recogniser; TLC "
+             "enumerates all texts <= 4 (thorough 5) over 20 characters, checks that separators and signs never change the "
+             "class, and exports class and canonical text; the real reader must produce that model type with CPython's "
+             "value, and non-numbers must read as symbol / dotted form / LexException; generated long literals go through "
+             "TLC's file mode.",
+        note="Texts only CPython's constructors accept (Infinity, 1+j, +NaN, Unicode digits) are open, decided with CPython."),
     "C32": dict(
         engine="mangle", level="model_checking", design="5.6, 6/C32",
         technique="TLC checks the mangling laws on all abstract class strings of HyMangle; the exported table is "
